@@ -91,8 +91,8 @@ impl LruManager {
         let idx = if let Some(free_idx) = self.free_list.pop() {
             free_idx
         } else {
-            // Evict LRU tail to make room
-            let Some(evicted) = self.evict_tail() else {
+            // Evict LRU tail to make room and reuse its slot
+            let Some(evicted) = self.release_tail() else {
                 return false;
             };
             evicted
@@ -116,6 +116,15 @@ impl LruManager {
     /// Returns the freed slot index, or `None` if the list is empty.
     ///
     pub fn evict_tail(&mut self) -> Option<u32> {
+        let slot = self.release_tail()?;
+        // Return the freed slot to the free list so it can be reused
+        self.free_list.push(slot);
+        Some(slot)
+    }
+
+    /// Unlink the LRU tail and hand its slot to the caller, who must reuse
+    /// it or push it onto the free list.
+    fn release_tail(&mut self) -> Option<u32> {
         let tail = self.header.lru_tail;
         if tail == LRU_SENTINEL {
             return None;
@@ -298,11 +307,9 @@ impl LruManager {
         let mut freed = 0u64;
 
         while freed < target_bytes {
-            let Some(slot) = self.evict_tail() else {
+            if self.evict_tail().is_none() {
                 break;
-            };
-            // Return the freed slot to the free list so it can be reused
-            self.free_list.push(slot);
+            }
             evicted += 1;
             freed += avg_entry_size;
         }
